@@ -186,4 +186,16 @@ CHECKS = {
         "level_note": "Oracle encoding/json go1.23.5 on an identical reflect.StructOf type. Names that encoding/json does not accept as tag names are outside the domain.",
         "assumptions": ["reflect.StructOf types behave like compiled struct types for both libraries (they take the fallback cache path)"],
     },
+    "C20": {
+        "pkg": "c20", "variants": [PLAIN],
+        "rule": ("semantics: rapid draws a document (keys from a pool incl. names needing quotes) and derives a path from it (child, double- and single-quoted child, index in and out of range, [*], ..name, missing "
+                 "names, up to 5 selectors), sometimes truncating the document; oracle: a reference evaluator over an ordered AST (source ranges, document order) for Extract, and the decoded parts for Path.Unmarshal; "
+                 "kind-mismatch and duplicate-key cases are no-panic only. reuse: one Path through 2-8 documents (matching, mismatching, malformed) must answer each like a fresh Path, also when 2-8 goroutines share it. "
+                 "enum: every string of length <= 6 (7 thorough) over $.[]*'\"01ab: no panic, clearly malformed text rejected, the documented grammar accepted and evaluated on three documents. Non-trivial = path with >= 2 "
+                 "selectors and a non-empty reference result, or a success after a failure on a reused Path; enum strings distinct by construction."),
+        "technique": "property-based testing against a reference JSONPath evaluator (ordered AST), stateful reuse/sharing histories, small-scope exhaustive enumeration of path strings",
+        "level_text": "Randomised comparison with a reference model plus exhaustive short path strings; exploration level.",
+        "level_note": "The reference implements the five selector kinds of the doc comment with the standard meaning; where a selector meets a value of the wrong kind only 'no panic' is asserted.",
+        "assumptions": ["missing names and out-of-range indices select nothing"],
+    },
 }
